@@ -14,7 +14,7 @@ func propC08(c *Ctx) {
 	c.Explanation = "Most of cache transparency (equivalence with an uncached client, no duplicated or lost log, 'at most N successive reads' as a count) is a statement about histories and is declined. Three clauses are structural and decided: (R8.1) a failed fetch is never stored – every store to segment.d/segment.done is on the edge where the getter's error is nil, the error arm returns without storing, and the head cache is updated only after both error tests; (R8.2) the cached head is an announced pair – NumHash.Num/Hash are written only in update (from its two parameters, together, under the lock) and in get's expiry reset, and every update call passes (X.Number|Num, X.Hash) of ONE decoded value X; Latest's uncached return is such a pair too; (R8.3) the read budget is enforced under the lock: the counters are compared with maxreads on the path to every cached return, incremented before it, and pruning by budget happens before the segment look-up."
 	w := c.W
 	get := w.Fn("jrpc2", "(*cache).get")
-	fD, fDone := w.Field("jrpc2", "segment", "d"), w.Field("jrpc2", "segment", "done")
+	fD, fDone := w.Field("jrpc2", "segment", "d"), w.FieldOpt("jrpc2", "segment", "done")
 	fSegReads := w.Field("jrpc2", "segment", "nreads")
 
 	// ---- R8.1 -----------------------------------------------------------
@@ -49,7 +49,7 @@ func propC08(c *Ctx) {
 				return
 			}
 			f, _ := fieldOf(st.Addr)
-			if f != fD && f != fDone {
+			if f == nil || (f != fD && f != fDone) {
 				return
 			}
 			n++
@@ -92,6 +92,11 @@ func propC08(c *Ctx) {
 			c.Check("R8.1", fmt.Sprintf("%s/update#%d-after-error-tests", fnName(fn), i+1), u.Pos(), good, "the head cache is updated only from a reply whose transport error and error member were tested")
 		}
 	}
+
+	c.Rule("R8.4", "the cache serves only the segment fetched for exactly this (start, limit)", 3)
+	checkCacheKeyIdentity(c, "R8.4")
+	c.Rule("R8.5", "a log is dropped from a shared block only when the same log index is already attached", 2)
+	checkLogsAddDedup(c, "R8.5")
 
 	// ---- R8.2 -----------------------------------------------------------
 	c.Rule("R8.2", "the cached head is always a (number, hash) pair of one announced header", 5)
@@ -274,7 +279,7 @@ func propC08(c *Ctx) {
 		doneT, _ := func() (t, f []Edge) {
 			allInstrs(get, func(in ssa.Instruction) {
 				if u, ok := in.(*ssa.UnOp); ok && u.Op == token.MUL {
-					if ff, _ := fieldOf(u.X); ff == fDone {
+					if ff, _ := fieldOf(u.X); fDone != nil && ff == fDone {
 						a, b := boolEdges(u)
 						t, f = append(t, a...), append(f, b...)
 					}
